@@ -203,31 +203,81 @@ def check_stack_end(chk, ix):
         f = cc.lookup("_push")
         _fail(chk, "X4", f, "ends=%s" % {k: sorted(v) for k, v in ends.items()},
               "the frame stack is accessed at different ends: %s" % {k: sorted(v) for k, v in ends.items()})
-    # lookups scan the whole stack in order; __delattr__ only the current frame; root writes only the root
-    for name, must_loop in (("__getattr__", True), ("__contains__", True), ("__delattr__", False)):
-        f = cc.lookup(name)
-        loops = [n for n in ast.walk(f.node) if isinstance(n, ast.For) and unparse(n.iter).endswith("_stack")]
-        chk.instance("X4")
-        if bool(loops) == must_loop:
-            chk.ok("X4", {"method": name, "scans_all_frames": must_loop}, nontrivial_key=name)
-        else:
-            _fail(chk, "X4", f, "%s scans_all=%s" % (name, bool(loops)), "Context.%s %s" % (
-                name, "does not scan the frames from the current one outward" if must_loop else
-                "looks at more than the current frame: an attribute of an outer scope could be deleted from an inner one"))
+    # lookups see every frame, innermost first; __delattr__ only the current frame (by evaluation on a three-frame stack)
+    for where in ("scenario", "feature", "testrun", "nowhere", "scenario+feature"):
+        for name in ("__contains__", "__getattr__", "__delattr__"):
+            f = cc.lookup(name)
+            it = Interp(ix, name="Context." + name)
+            it.int_sat = 100
+            it.list_cap = 100
+            st = State()
+            st.frames = []
+            frames = [{"@layer": "scenario"}, {"@layer": "feature"}, {"@layer": "testrun"}]
+            for i, lay in enumerate(("scenario", "feature", "testrun")):
+                if lay in where.split("+"):
+                    frames[i]["x"] = "value@" + lay
+            ctx, stack, frefs = _ctx(ix, st, frames)
+            st.wobj(st.obj(ctx).fields["_record"]).items = [("x", "rec")]
+            outs = it.call_function(st, f, ["x"], {}, None, self_val=ctx)
+            chk.absorb(it)
+            chk.instance("X4")
+            if len(outs) != 1:
+                raise AnalysisError("Context.%s not evaluable (x in %s): %r" % (name, where, [(k, v) for _, k, v in outs][:3]))
+            s2, k, v = outs[0]
+            first = where.split("+")[0]
+            if name == "__contains__":
+                want, got = (where != "nowhere"), (v if k == "val" else repr(v))
+            elif name == "__getattr__":
+                want = ("value@" + first) if where != "nowhere" else "AttributeError"
+                got = v if k == "val" else v.clsname()
+            else:
+                still = ["x" in dict(s2.obj(fr).items) for fr in frefs]
+                want = ("deleted", [False, "feature" in where, "testrun" in where]) if "scenario" in where.split("+") else ("AttributeError", ["scenario" in where, "feature" in where, "testrun" in where])
+                got = ("deleted" if k == "val" else v.clsname(), still)
+            if got == want:
+                chk.ok("X4", {"method": name, "x defined in": where, "result": repr(got)}, nontrivial_key=(name, where))
+            else:
+                _fail(chk, "X4", f, "%s with x in %s -> %r" % (name, where, got), "Context.%s('x') with x defined in the %s frame(s) gives %r, expected %r "
+                      "(attributes are looked up from the current frame outward; only the current frame's attributes can be deleted)" % (name, where, got, want))
 
 
 def check_fixture_and_managers(chk, ix):
     chk.rule("X6", WHAT["X6"])
     chk.rule("X9", WHAT["X9"])
     f = ix.func("behave.fixture:_setup_fixture")
-    chk.instance("X6")
-    reg = [n for n in ast.walk(f.node) if isinstance(n, ast.Call) and isinstance(n.func, ast.Attribute) and n.func.attr == "add_cleanup"]
-    setup = [n for n in ast.walk(f.node) if isinstance(n, ast.Assign) and isinstance(n.value, ast.Call) and unparse(n.value.func) == "next"]
-    if reg and setup and reg[0].lineno < setup[0].lineno:
-        chk.ok("X6", {"order": "add_cleanup(...) before next(generator)"}, nontrivial_key="order")
-    else:
-        _fail(chk, "X6", f, "cleanup registered after setup", "the generator fixture's cleanup is not registered before its setup part runs: "
-              "a failing setup would leave the fixture without cleanup")
+    for is_gen in (True, False):
+        events = []
+
+        def fixture_func(i, s_, a, k, n, _e=events, _g=is_gen):
+            _e.append("fixture function called")
+            return [(s_, "val", "GENERATOR" if _g else "SETUP-RESULT")]
+        fixture_func.__name__ = "fixture_func"
+
+        def next_(i, s_, a, k, n, _e=events):
+            _e.append("next(generator): setup part runs")
+            s_fail = s_.fork()
+            return [(s_, "val", "SETUP-RESULT"), (s_fail, "raise", Exc("RuntimeError", None, "setup part"))]
+        it = Interp(ix, stubs={"is_context_manager": lambda i, s_, a, k, n, _g=is_gen: [(s_, "val", _g)], "next": next_,
+                               "ContextTok.add_cleanup": lambda i, s_, a, k, n, _e=events: (_e.append("cleanup registered"), [(s_, "val", None)])[1]},
+                    name="_setup_fixture")
+        st = State()
+        st.frames = []
+        ctx = st.alloc(HObj("ContextTok", {}, label="context"))
+        outs = it.call_function(st, f, [fixture_func, ctx], {}, None)
+        chk.absorb(it)
+        chk.instance("X6")
+        if is_gen:
+            want_prefix = ["fixture function called", "cleanup registered", "next(generator): setup part runs"]
+            ok_ = events[:3] == want_prefix and any(k == "val" and v == "SETUP-RESULT" for _, k, v in outs) and any(k == "raise" for _, k, v in outs)
+        else:
+            ok_ = events == ["fixture function called"] and [(k, v) for _, k, v in outs] == [("val", "SETUP-RESULT")]
+        if ok_:
+            chk.ok("X6", {"fixture": "generator" if is_gen else "plain function", "sequence": list(events)}, nontrivial_key=("fixture", is_gen))
+        else:
+            _fail(chk, "X6", f, "%s fixture: %s" % ("generator" if is_gen else "plain", events),
+                  "_setup_fixture for a %s fixture does %s (results %r): the cleanup of a generator fixture must be registered before its setup part "
+                  "runs (a failing setup would otherwise leave it without cleanup), and the setup result is returned" % (
+                      "generator" if is_gen else "plain function", events, [(k, v) for _, k, v in outs][:3]))
     for name in ("use_context_with_mode", "scoped_context_layer"):
         g = ix.func("behave.runner:" + name)
         chk.instance("X9")
